@@ -383,8 +383,28 @@ class R:
                     g.emit("wf64 %s" % z)
         g.emit("dig64 %s" % x)
 
+    def addmany_order_episode(self):
+        """AddMany / BitmapOf with the same values in different ORDERS (ascending, descending, ends in one bucket and the interior
+        elsewhere, every element in another bucket than its neighbours, duplicates), into fresh and populated bitmaps"""
+        g = self.g
+        vs = [5, 70000, B32 - 1, B32, B32 + 7, 2 * B32 + 65536, 7 * B32 + 3, 7 * B32 + 70001, MAXV]
+        orders = [vs, vs[::-1], [vs[0], vs[4], vs[1]], [vs[0], vs[3], vs[6], vs[1], vs[5], vs[2]], [vs[6], vs[0], vs[8], vs[7]],
+                  [vs[4], vs[4], vs[0], vs[4], vs[3]], [vs[1], vs[3], vs[0], vs[5], vs[4], vs[2], vs[6], vs[8], vs[7], vs[0]]]
+        for pre in (False, True):
+            for o in orders:
+                x = g.fresh("am")
+                if pre:
+                    g.emit("of64 %s %d %d %d" % (x, 9, B32 + 9, 7 * B32 + 9))
+                    g.emit("addmany64 %s %s" % (x, " ".join(map(str, o))))
+                else:
+                    g.emit("of64 %s %s" % (x, " ".join(map(str, o))))
+                g.emit("card64 %s" % x)
+                g.emit("wf64 %s" % x)
+                g.count("addmany64:order-episode")
+
     def suite_hist(self, nhist, steps):
         g, r = self.g, self.r
+        self.addmany_order_episode()
         self.boundary_episode(1)
         self.boundary_episode(0x80000000)
         self.boundary_episode()
